@@ -629,6 +629,8 @@ class MQTTProtocol(MQTTBaseProtocol):
         for _, request in self.factory.windowPublish[self.addr].items():
             if request.alarm is None:
                 self._retryPublish(request, dup=True)
+        # This connection may allow a larger window than the lost one did
+        self._refillPublish(dup=False)
 
     # --------------------------------------------------------------------------
 
